@@ -1104,52 +1104,57 @@ def _fix(fn):
     return apply
 
 
+def equiv_table():
+    """(tag, tree edit, description) of every behaviour-preserving rewrite"""
+    return (
+    ("swap-comparisons", _transformer(_SwapComparisons), "operands of every comparison exchanged (a < b -> b > a)"),
+    ("range-zero", _transformer(_RangeZero), "range(n) -> range(0, n)"),
+    ("ifexp-flip", _transformer(_IfExpFlip), "a if c else b -> b if not c else a"),
+    ("ifelse-flip", _transformer(_IfElseFlip), "if c: A else: B -> if not c: B else: A"),
+    ("chain-split", _transformer(_ChainSplit), "a < b < c -> a < b and b < c"),
+    ("aug-const", _transformer(_AugConst), "x += 1 -> x = x + 1"),
+    ("return-via-temp", _fix(_return_via_temp), "return E -> _result = E; return _result"),
+    ("any-all-list", _transformer(_AnyAllList), "all(generator) -> all([list comprehension])"),
+    ("continue-guard", _transformer(_ContinueGuard), "loop body guarded by `if c: continue` <-> `if not c: body`"),
+    ("nested-if-split", _transformer(_NestedIfSplit), "if a and b: X -> if a: if b: X"),
+    ("keys-iter", _transformer(_KeysIter), "for k in d.keys() -> for k in d"),
+    ("commute-const", _transformer(_CommuteConst), "i + 1 -> 1 + i"),
+    ("de-morgan", _transformer(_DeMorgan), "not (a and b) -> not a or not b"),
+    ("annotate-locals", _transformer(_AnnotateLocals), "x = 0 -> x: int = 0 inside functions"),
+    ("no-else-return", _transformer(_NoElseReturn), "else after return/raise/continue/break removed"),
+    ("literal-ctor", _transformer(_LiteralCtor), "[] -> list(), {} -> dict()"),
+    ("append-to-aug", _transformer(_AppendToAug), "x.append(y) -> x += [y]"),
+    ("swap-assigns", _fix(_swap_independent_assigns), "adjacent independent assignments exchanged"),
+    ("loop-to-comprehension", _fix(_loop_to_comprehension), "res = []; for v in it: res.append(E) -> res = [E for v in it]"),
+    ("comprehension-to-loop", _fix(_comprehension_to_loop), "x = [E for v in it if c] -> explicit loop with append"),
+    ("yield-from-to-loop", _fix(_yield_from_to_loop), "yield from E -> for _item in E: yield _item"),
+    ("loop-to-yield-from", _fix(_loop_to_yield_from), "for v in E: yield v -> yield from E"),
+    ("any-to-loop", _fix(_any_to_loop), "return any(C for v in D) -> search loop with early return"),
+    ("hoist-first-operand", _fix(_hoist_first_operand), "first operand of an and/or test bound to a local first"),
+    ("split-or-returns", _fix(_split_or_returns), "if A or B: return X -> if A: return X; if B: return X"),
+    ("hoist-literals", _fix(_hoist_literals), "Perm literals, magic integers and short strings named as module constants"),
+    ("reassociate", _transformer(_Reassociate), "n - i - 1 -> n - 1 - i"),
+    ("index-from-front", _transformer(_IndexFromFront), "x[-1] -> x[len(x) - 1]"),
+    ("reverse-keywords", _transformer(_ReverseKeywords), "keyword arguments in the opposite order"),
+    ("ifexp-to-statement", _fix(_ifexp_to_statement), "x = A if C else B -> if C: x = A else: x = B"),
+    ("reverse-de-morgan", _transformer(_ReverseDeMorgan), "A or B -> not (not A and not B)"),
+    ("in-to-or", _transformer(_InToOr), "x in (a, b) -> x == a or x == b"),
+    ("or-to-in", _transformer(_OrToIn), "x == a or x == b -> x in (a, b)"),
+    ("unpack-by-index", _fix(_unpack_by_index), "a, b = t -> a = t[0]; b = t[1]"),
+    ("guard-to-wrap", _fix(_guard_to_wrap), "procedure: if c: return; REST -> if not c: REST"),
+    ("wrap-to-guard", _fix(_wrap_to_guard), "procedure ending in if c: BODY -> if not c: return; BODY"),
+    ("slice-spelling", _transformer(_SliceSpelling), "x[:k] -> x[0:k]; x[a:] -> x[a:len(x)]"),
+    ("extract-local", _fix(_extract_local), "f(a, g(x)) -> _x0 = g(x); f(a, _x0)"),
+    ("sorted-to-sort", _fix(_sorted_to_sort), "x = sorted(E) -> x = list(E); x.sort()"),
+    )
+
+
 def generic_equiv(files: List[str]) -> List[Variant]:
     """Whole-file behaviour-preserving rewrites of small syntactic idioms.  Expectation 'nofire': undecided is tolerated,
     an accusation is a false alarm."""
     out = []
     for f in files:
         short = f.split("/")[-1][:-3]
-        for tag, fn, note in (
-            ("swap-comparisons", _transformer(_SwapComparisons), "operands of every comparison exchanged (a < b -> b > a)"),
-            ("range-zero", _transformer(_RangeZero), "range(n) -> range(0, n)"),
-            ("ifexp-flip", _transformer(_IfExpFlip), "a if c else b -> b if not c else a"),
-            ("ifelse-flip", _transformer(_IfElseFlip), "if c: A else: B -> if not c: B else: A"),
-            ("chain-split", _transformer(_ChainSplit), "a < b < c -> a < b and b < c"),
-            ("aug-const", _transformer(_AugConst), "x += 1 -> x = x + 1"),
-            ("return-via-temp", _fix(_return_via_temp), "return E -> _result = E; return _result"),
-            ("any-all-list", _transformer(_AnyAllList), "all(generator) -> all([list comprehension])"),
-            ("continue-guard", _transformer(_ContinueGuard), "loop body guarded by `if c: continue` <-> `if not c: body`"),
-            ("nested-if-split", _transformer(_NestedIfSplit), "if a and b: X -> if a: if b: X"),
-            ("keys-iter", _transformer(_KeysIter), "for k in d.keys() -> for k in d"),
-            ("commute-const", _transformer(_CommuteConst), "i + 1 -> 1 + i"),
-            ("de-morgan", _transformer(_DeMorgan), "not (a and b) -> not a or not b"),
-            ("annotate-locals", _transformer(_AnnotateLocals), "x = 0 -> x: int = 0 inside functions"),
-            ("no-else-return", _transformer(_NoElseReturn), "else after return/raise/continue/break removed"),
-            ("literal-ctor", _transformer(_LiteralCtor), "[] -> list(), {} -> dict()"),
-            ("append-to-aug", _transformer(_AppendToAug), "x.append(y) -> x += [y]"),
-            ("swap-assigns", _fix(_swap_independent_assigns), "adjacent independent assignments exchanged"),
-            ("loop-to-comprehension", _fix(_loop_to_comprehension), "res = []; for v in it: res.append(E) -> res = [E for v in it]"),
-            ("comprehension-to-loop", _fix(_comprehension_to_loop), "x = [E for v in it if c] -> explicit loop with append"),
-            ("yield-from-to-loop", _fix(_yield_from_to_loop), "yield from E -> for _item in E: yield _item"),
-            ("loop-to-yield-from", _fix(_loop_to_yield_from), "for v in E: yield v -> yield from E"),
-            ("any-to-loop", _fix(_any_to_loop), "return any(C for v in D) -> search loop with early return"),
-            ("hoist-first-operand", _fix(_hoist_first_operand), "first operand of an and/or test bound to a local first"),
-            ("split-or-returns", _fix(_split_or_returns), "if A or B: return X -> if A: return X; if B: return X"),
-            ("hoist-literals", _fix(_hoist_literals), "Perm literals, magic integers and short strings named as module constants"),
-            ("reassociate", _transformer(_Reassociate), "n - i - 1 -> n - 1 - i"),
-            ("index-from-front", _transformer(_IndexFromFront), "x[-1] -> x[len(x) - 1]"),
-            ("reverse-keywords", _transformer(_ReverseKeywords), "keyword arguments in the opposite order"),
-            ("ifexp-to-statement", _fix(_ifexp_to_statement), "x = A if C else B -> if C: x = A else: x = B"),
-            ("reverse-de-morgan", _transformer(_ReverseDeMorgan), "A or B -> not (not A and not B)"),
-            ("in-to-or", _transformer(_InToOr), "x in (a, b) -> x == a or x == b"),
-            ("or-to-in", _transformer(_OrToIn), "x == a or x == b -> x in (a, b)"),
-            ("unpack-by-index", _fix(_unpack_by_index), "a, b = t -> a = t[0]; b = t[1]"),
-            ("guard-to-wrap", _fix(_guard_to_wrap), "procedure: if c: return; REST -> if not c: REST"),
-            ("wrap-to-guard", _fix(_wrap_to_guard), "procedure ending in if c: BODY -> if not c: return; BODY"),
-            ("slice-spelling", _transformer(_SliceSpelling), "x[:k] -> x[0:k]; x[a:] -> x[a:len(x)]"),
-            ("extract-local", _fix(_extract_local), "f(a, g(x)) -> _x0 = g(x); f(a, _x0)"),
-            ("sorted-to-sort", _fix(_sorted_to_sort), "x = sorted(E) -> x = list(E); x.sort()"),
-        ):
+        for tag, fn, note in equiv_table():
             out.append(Variant(f"equiv-{tag}-{short}", [(f, fn)], "nofire", note=note))
     return out
